@@ -31,6 +31,9 @@ def call(I, fv, args, kw):
     name = fv.name
     fn = _LIB.get(name)
     if fn is None:
+        for pre, h in _LIB_PREFIX.items():
+            if name.startswith(pre):
+                return h(I, fv, args, kw)
         raise Unsupported(f"no model for {name}")
     return fn(I, fv, args, kw)
 
@@ -231,3 +234,327 @@ def str_of(I, a):
 _EXT_ATTR = {}
 _EXT_CALL = {}
 _EXT_MAKE = {}
+
+
+# ===============================================================================================
+# hashes, AES, padding, random, xor  (uninterpreted; algebraic laws by rewriting on provenance)
+# ===============================================================================================
+
+def _hash_digest(I, algo, n, data: VBytes):
+    data = I.resolve(data)
+    if data.is_concrete():
+        import hashlib
+        return VBytes.lit(getattr(hashlib, algo)(data.concrete()).digest())
+    used(I, f"{algo}: deterministic uninterpreted function with a {n}-byte digest")
+    return B.opaque_bytes(I, algo, [data], n, origin=(algo,))
+
+
+def hashlib_new(algo, n):
+    def f(I, fv, args, kw):
+        data = I.resolve(args[0]) if args else VBytes([])
+        if not isinstance(data, VBytes):
+            I.raise_py("builtins.TypeError", "object supporting the buffer API required")
+        return ext_obj(I, "hash", algo=algo, n=n, data=data)
+    return f
+
+
+def hash_attr(I, ref, o, name):
+    from .interp import VBuiltin
+    return VBuiltin("hash." + name, ref)
+
+
+def hash_call(I, fv, args, kw):
+    o = I.hobj(fv.self_val)
+    name = fv.name.split(".")[-1]
+    if name == "digest":
+        return _hash_digest(I, o.meta["algo"], o.meta["n"], o.meta["data"])
+    if name == "hexdigest":
+        d = _hash_digest(I, o.meta["algo"], o.meta["n"], o.meta["data"])
+        if d.is_concrete():
+            return VStr(c=d.concrete().hex())
+        return I.opaque_str("hex", d.key())
+    if name == "update":
+        o.meta["data"] = concat(o.meta["data"], I.resolve(args[0]))
+        return NONE
+    raise Unsupported(f"hash method {name}")
+
+
+AES_MODE_ECB, AES_MODE_CBC = 1, 2
+
+
+def aes_new(I, fv, args, kw):
+    used(I, "AES.new/encrypt/decrypt: ValueError iff key length not in {16,24,32} or data length not a multiple of 16; "
+            "length preserving; decrypt(encrypt(x)) = x and encrypt(decrypt(x)) = x under the same key/mode/iv")
+    key = I.resolve(args[0])
+    mode = I.resolve(args[1])
+    if not isinstance(key, VBytes):
+        I.raise_py("builtins.TypeError", "key must be bytes")
+    n = key.length()
+    bad = z3.Not(z3.Or(_iv(n) == 16, _iv(n) == 24, _iv(n) == 32)) if not isinstance(n, int) else (n not in (16, 24, 32))
+    if I.path.branch(bad, "aes_keylen") if not isinstance(bad, bool) else bad:
+        I.raise_py("builtins.ValueError", "Incorrect AES key length")
+    iv = kw.get("iv", kw.get("IV"))
+    if mode.c == AES_MODE_CBC:
+        if iv is None:
+            raise Unsupported("AES CBC without explicit iv")
+        iv = I.resolve(iv)
+        ivn = iv.length()
+        if isinstance(ivn, int) and ivn != 16:
+            I.raise_py("builtins.ValueError", "Incorrect IV length")
+    return ext_obj(I, "aes", key=key, mode=mode.c, iv=iv)
+
+
+def aes_attr(I, ref, o, name):
+    from .interp import VBuiltin
+    return VBuiltin("aes." + name, ref)
+
+
+def aes_call(I, fv, args, kw):
+    o = I.hobj(fv.self_val)
+    name = fv.name.split(".")[-1]
+    data = I.resolve(args[0])
+    if not isinstance(data, VBytes):
+        I.raise_py("builtins.TypeError", "data must be bytes")
+    n = data.length()
+    if isinstance(n, int):
+        if n % 16:
+            I.raise_py("builtins.ValueError", "Data must be aligned to block boundary")
+    elif I.path.branch(_iv(n) % 16 != 0, "aes_block"):
+        I.raise_py("builtins.ValueError", "Data must be aligned to block boundary")
+    mode = "ecb" if o.meta["mode"] == AES_MODE_ECB else "cbc"
+    keyk = o.meta["key"].key()
+    ivk = o.meta["iv"].key() if o.meta.get("iv") is not None else None
+    tag_e, tag_d = f"aes_{mode}_enc", f"aes_{mode}_dec"
+    this, inv = (tag_e, tag_d) if name == "encrypt" else (tag_d, tag_e)
+    if name not in ("encrypt", "decrypt"):
+        raise Unsupported(f"AES method {name}")
+    org = B.whole_origin(data, inv)
+    if org is not None and org[1] == keyk and org[2] == ivk and I.path.known(_iv(data.segs[0].n) == _iv(org[3].length())):
+        return org[3].with_kind("bytes")          # inverse law
+    return B.opaque_bytes(I, this, [o.meta["key"], data] + ([o.meta["iv"]] if ivk is not None else []), n,
+                          origin=(this, keyk, ivk, data))
+
+
+PADTAG = "pkcs7pad"
+
+
+def padding_pad(I, fv, args, kw):
+    used(I, "Padding.pad(x,16) = x ++ p*[p] with p = 16 - len(x) % 16 (PKCS#7)")
+    data = I.resolve(args[0])
+    bs = I.resolve(args[1])
+    if bs.c != 16:
+        raise Unsupported("pad block size")
+    n = data.length()
+    if isinstance(n, int):
+        p = 16 - n % 16
+        return concat(data.with_kind("bytes"), VBytes([View(z3.K(B.INT, z3.BitVecVal(p, 8)), 0, p, origin=(PADTAG,))]))
+    p = z3.simplify(16 - _iv(n) % 16)
+    return concat(data.with_kind("bytes"), VBytes([View(z3.K(B.INT, z3.Int2BV(p, 8)), 0, p, origin=(PADTAG,))]))
+
+
+def padding_unpad(I, fv, args, kw):
+    used(I, "Padding.unpad(y,16): ValueError unless len(y) is a positive multiple of 16 and y ends in p copies of p, 1 <= p <= 16; then y[:-p]")
+    y = I.resolve(args[0])
+    if I.resolve(args[1]).c != 16:
+        raise Unsupported("unpad block size")
+    n = y.length()
+    if y.segs and isinstance(y.segs[-1], View) and y.segs[-1].origin == (PADTAG,):
+        # unpad(pad(x)) = x  -- the view was built by padding_pad (length and contents are PKCS#7 by construction)
+        return VBytes(y.segs[:-1], "bytes")
+    nn = _iv(n)
+    empty_or_unaligned = z3.Or(nn <= 0, nn % 16 != 0)
+    if I.path.branch(empty_or_unaligned, "unpad_len"):
+        I.raise_py("builtins.ValueError", "Input data is not padded")
+    last = y.at(isub(n, 1))
+    lastv = byte_val(last)
+    p = lastv.as_int()
+    conds = [p >= 1, p <= 16]
+    for k in range(1, 16):
+        conds.append(z3.Implies(p > k, y.at(z3.simplify(nn - 1 - k)) == last))
+    ok = z3.And(conds)
+    if not I.path.branch(ok, "unpad_ok"):
+        I.raise_py("builtins.ValueError", "Padding is incorrect.")
+    return I.slice_bytes(y.with_kind("bytes"), 0, z3.simplify(nn - p))
+
+
+def get_random_bytes(I, fv, args, kw):
+    used(I, "get_random_bytes(n): n arbitrary bytes")
+    n = B.want_int(I, args[0])
+    if n.c is not None:
+        return VBytes([View(z3.Const(fresh("rnd"), B.ARR), 0, n.c)]) if n.c > 0 else VBytes([])
+    return VBytes([View(z3.Const(fresh("rnd"), B.ARR), 0, n.as_int())])
+
+
+def strxor(I, fv, args, kw):
+    used(I, "strxor(a,b): ValueError iff lengths differ, else byte-wise xor")
+    a, b = I.resolve(args[0]), I.resolve(args[1])
+    la, lb = a.length(), b.length()
+    if isinstance(la, int) and isinstance(lb, int):
+        if la != lb:
+            I.raise_py("builtins.ValueError", "Only byte strings of equal length can be xored")
+    elif I.path.branch(_iv(la) != _iv(lb), "strxor_len"):
+        I.raise_py("builtins.ValueError", "Only byte strings of equal length can be xored")
+    n = a.conc_len() if a.conc_len() is not None else b.conc_len()
+    if n is None or n > 256:
+        raise Unsupported("strxor of symbolic length")
+    return VBytes([Lit([z3.simplify(a.at(k) ^ b.at(k)) for k in range(n)])])
+
+
+def bytes_fromhex(I, fv, args, kw):
+    used(I, "bytes.fromhex: opaque deterministic function of the string (ValueError for non-hex strings)")
+    s = I.resolve(args[0])
+    if s.c is not None:
+        try:
+            return VBytes.lit(bytes.fromhex(s.c))
+        except ValueError:
+            I.raise_py("builtins.ValueError", "non-hexadecimal number found in fromhex()")
+    if I.path.branch(B.opaque_bool(I, "is_hex", [s]).term(), "fromhex"):
+        n = B.opaque_int(I, "hexlen", [s], 0, MAXLEN)
+        return B.opaque_bytes(I, "fromhex", [s], n.as_int())
+    I.raise_py("builtins.ValueError", "non-hexadecimal number found in fromhex()")
+
+
+_LIB.update({
+    "hashlib.md5": hashlib_new("md5", 16), "hashlib.sha256": hashlib_new("sha256", 32),
+    "Crypto.Cipher.AES.new": aes_new, "Crypto.Util.Padding.pad": padding_pad, "Crypto.Util.Padding.unpad": padding_unpad,
+    "Crypto.Random.get_random_bytes": get_random_bytes, "Crypto.Util.strxor.strxor": strxor,
+    "bytes.fromhex": bytes_fromhex,
+})
+_EXT_ATTR.update({"hash": hash_attr, "aes": aes_attr})
+_LIB_PREFIX = {"hash.": hash_call, "aes.": aes_call}
+_CONSTS = {"Crypto.Cipher.AES.MODE_ECB": AES_MODE_ECB, "Crypto.Cipher.AES.MODE_CBC": AES_MODE_CBC}
+
+
+# ===============================================================================================
+# spec-level names of the same primitives (used by the sidecar spec functions; natively pyvc/dsl.py)
+# ===============================================================================================
+
+def _spec_hash(algo, n):
+    def f(I, args, kw):
+        return _hash_digest(I, algo, n, I.resolve(args[0]))
+    return f
+
+
+def _spec_aes(mode, op):
+    def f(I, args, kw):
+        from .interp import VBuiltin
+        key, data = args
+        kwargs = {"iv": VBytes.lit(bytes(16))} if mode == AES_MODE_CBC else {}
+        c = aes_new(I, None, [key, mkint(mode)], kwargs)
+        return aes_call(I, VBuiltin("aes." + op, c), [data], {})
+    return f
+
+
+def _spec_pkcs7(I, args, kw):
+    return padding_pad(I, None, [args[0], mkint(16)], {})
+
+
+def _spec_xor(I, args, kw):
+    return strxor(I, None, args, kw)
+
+
+SPEC_LIB = {
+    "md5": _spec_hash("md5", 16), "sha256": _spec_hash("sha256", 32),
+    "aes_ecb_enc": _spec_aes(AES_MODE_ECB, "encrypt"), "aes_ecb_dec": _spec_aes(AES_MODE_ECB, "decrypt"),
+    "aes_cbc_enc": _spec_aes(AES_MODE_CBC, "encrypt"), "aes_cbc_dec": _spec_aes(AES_MODE_CBC, "decrypt"),
+    "pkcs7": _spec_pkcs7, "xor_bytes": _spec_xor,
+}
+
+
+# ===============================================================================================
+# datetime / timedelta (ghost clock)
+# ===============================================================================================
+
+def dt_now(I, fv, args, kw):
+    used(I, "datetime.now: ghost clock, non-decreasing across reads; calendar fields within their documented ranges")
+    t = z3.Int(fresh("clock"))
+    prev = I.path.ghost.get("clock")
+    if prev is not None:
+        I.path.assume(t >= prev)
+    I.path.ghost["clock"] = t
+    return make_datetime(I, t)
+
+
+def make_datetime(I, t):
+    o = ext_obj(I, "datetime", ts=t)
+    f = I.hobj(o).fields
+    for name, lo, hi in (("year", 1, 9999), ("month", 1, 12), ("day", 1, 31), ("hour", 0, 23), ("minute", 0, 59),
+                         ("second", 0, 59), ("microsecond", 0, 999999)):
+        v = B.opaque_int(I, "dt_" + name, [VInt(i=t)], lo, hi)
+        f[name] = v
+    return o
+
+
+def dt_attr(I, ref, o, name):
+    from .interp import VBuiltin
+    if name in o.fields:
+        return o.fields[name]
+    return VBuiltin("dt." + name, ref)
+
+
+def dt_call(I, fv, args, kw):
+    name = fv.name.split(".")[-1]
+    if name in ("isoformat", "strftime"):
+        return I.opaque_str(name, id(fv.self_val))
+    raise Unsupported(f"datetime method {name}")
+
+
+def timedelta_new(I, fv, args, kw):
+    used(I, "timedelta: exact number of seconds")
+    secs = mkint(0)
+    for k, mult in (("days", 86400), ("hours", 3600), ("minutes", 60), ("seconds", 1)):
+        if k in kw:
+            v = B.want_int(I, kw[k])
+            secs = ops._arith(I, "+", secs, ops._arith(I, "*", v, mkint(mult)))
+    if args:
+        raise Unsupported("timedelta positional arguments")
+    return ext_obj(I, "timedelta", secs=secs, truth=ops.truth(I, secs))
+
+
+def td_attr(I, ref, o, name):
+    from .interp import VBuiltin
+    return VBuiltin("td." + name, ref)
+
+
+def td_call(I, fv, args, kw):
+    name = fv.name.split(".")[-1]
+    o = I.hobj(fv.self_val)
+    if name == "total_seconds":
+        s = o.meta["secs"]
+        return VFloat(c=float(s.c)) if s.c is not None else VFloat(t=z3.ToReal(s.as_int()))
+    raise Unsupported(f"timedelta method {name}")
+
+
+def ext_binop(I, o, a, b):
+    oa = I.hobj(a) if isinstance(a, VRef) else None
+    ob = I.hobj(b) if isinstance(b, VRef) else None
+    if oa is not None and ob is not None and oa.kind == "ext" and ob.kind == "ext":
+        if oa.meta.get("tag") == "datetime" and ob.meta.get("tag") == "timedelta" and o == "+":
+            return make_datetime(I, z3.simplify(oa.meta["ts"] + ob.meta["secs"].as_int()))
+    raise Unsupported(f"binop {o} on objects")
+
+
+def order_ref(I, o, a, b):          # noqa: F811
+    oa = I.hobj(a) if isinstance(a, VRef) else None
+    ob = I.hobj(b) if isinstance(b, VRef) else None
+    if oa is not None and ob is not None and oa.meta.get("tag") == "datetime" and ob.meta.get("tag") == "datetime":
+        x, y = oa.meta["ts"], ob.meta["ts"]
+        return VBool(t={"<": x < y, "<=": x <= y, ">": x > y, ">=": x >= y}[o])
+    raise Unsupported("ordering of objects")
+
+
+def make_ext_datetime(I, cs, typ, name):
+    t = z3.Int(fresh(name + "_ts"))
+    return make_datetime(I, t)
+
+
+def make_ext_timedelta(I, cs, typ, name):
+    s = z3.Int(fresh(name + "_secs"))
+    v = VInt(i=s)
+    return ext_obj(I, "timedelta", secs=v, truth=ops.truth(I, v))
+
+
+_LIB.update({"datetime.datetime.now": dt_now, "datetime.timedelta": timedelta_new})
+_EXT_ATTR.update({"datetime": dt_attr, "timedelta": td_attr})
+_LIB_PREFIX.update({"dt.": dt_call, "td.": td_call})
+_EXT_MAKE.update({"datetime": make_ext_datetime, "timedelta": make_ext_timedelta})
